@@ -5,7 +5,7 @@ is_valid_code_locals) and the boolean meaning taken from the property text coinc
 import ast, itertools, os, sys, time, z3, multiprocessing as mp, traceback
 from pyvc import report
 
-ATOMS = ['IS(f1)', 'IS(f2)', 'ISEQ(5)', "ISEQ('a')", 'ISINST(L0)', 'ISINST(L0, int)', 'ISSUB(L0)', 'ISSUB(L0, L1)']
+ATOMS = ['IS(f1)', 'IS(f2)', 'ISEQ(5)', "ISEQ('a')", 'ISINST(L0)', 'ISINST(L0, int)', 'ISSUB(L0)', 'ISSUB(L0, L1)', 'ISEQ(NAN)', 'ISEQ(NEQ)']
 def palette(tier, seed):
     import random
     rnd = random.Random(seed)
@@ -61,6 +61,8 @@ def _worker(task):
             except symx.Unsupported as e:
                 rec['error'] = f'{label}: unsupported: {e}'; return
             axioms = uni.axioms(); prover = discharge.Prover(axioms)
+            cz = prover.prove([], z3.BoolVal(False))
+            if cz.status == 'proved': rec['error'] = f'{label}: vacuity guard: the axioms of this universe are contradictory'; return
             for ob in ex.obls:
                 r = prover.prove(list(ob.pc), ob.goal)
                 rec['obligations'].append(dict(name=f'{label}.{ob.kind}#{ob.name.rsplit(".", 1)[-1]}', status=r.status, time=r.time, backend=r.backend, where=ob.where,
